@@ -55,6 +55,10 @@ pub struct FlowKey {
     /// The client source address. When the extractor keys on source IP only,
     /// the port is normalised to `0`.
     pub src: SocketAddr,
+    /// `true` for a source-IP-only key. Keeps an IP-only key distinct from the
+    /// 4-tuple key of a client whose real source port is `0`, so a flow admitted
+    /// under one affinity mode is never hit by a lookup made under the other.
+    pub ip_only: bool,
 }
 
 impl FlowKey {
@@ -62,11 +66,14 @@ impl FlowKey {
     /// `with_port` is set, normalising it to `0` otherwise.
     pub fn from_src(src: SocketAddr, with_port: bool) -> Self {
         if with_port {
-            FlowKey { src }
+            FlowKey {
+                src,
+                ip_only: false,
+            }
         } else {
             let mut src = src;
             src.set_port(0);
-            FlowKey { src }
+            FlowKey { src, ip_only: true }
         }
     }
 }
